@@ -82,6 +82,20 @@ pub fn fill_cells(rng: &mut Rng, ws: &mut umya_spreadsheet::Worksheet, ncells: u
             }
         }
     }
+    // merged ranges over existing cells: every cell keeps what it holds, whether it is the corner of the range or not
+    if ncells > 0 && rng.chance(1, 4) {
+        let cells: Vec<(u32, u32)> = ws.get_cell_collection_sorted().iter().map(|x| (*x.get_coordinate().get_col_num(), *x.get_coordinate().get_row_num())).filter(|p| p.0 > 1 && p.1 > 1 && p.0 < 16_000 && p.1 < 1_000_000).collect();
+        for _ in 0..rng.range(1, 3) {
+            if cells.is_empty() {
+                break;
+            }
+            let (c, r) = *rng.pick(&cells);
+            let a = umya_spreadsheet::helper::coordinate::coordinate_from_index(&(c - 1), &(r - 1));
+            let b = umya_spreadsheet::helper::coordinate::coordinate_from_index(&(c + rng.range(0, 2)), &(r + rng.range(0, 2)));
+            ws.add_merge_cells(format!("{}:{}", a, b));
+            o.count("merged-ranges-over-cells", 1);
+        }
+    }
     // a table over a block of cells: being the header or a body cell of a table does not change what kind of value a cell holds
     if ncells > 0 && rng.chance(1, 4) {
         *uid += 1;
